@@ -45,7 +45,8 @@ TIMEOUT_MS = 24 * 3600 * 1000
 
 MANIFEST_ENTRY = {
     "level_text": "C05_norm_agree (every table-location string, every key under data/ or metadata/), C05_gc_safe, C05_gc_live, "
-                  "C05_no_abort and C05_history (induction over unbounded sequential histories) proved in Coq over a call-by-call "
+                  "C05_no_abort, C05_history (induction over unbounded sequential histories, collections with arbitrary faults included) and "
+                  "C05_append_commits proved in Coq, for both orders of the collector's preparatory phases, over a call-by-call "
                   "model of GarbageCollector.collect whose path normalisation, marker fallback, marker naming and constants are "
                   "regenerated from the source on every run; the hand-written model is tied to the code by differential execution "
                   "of every collection of every generated history (outcome, exact deleted set, keep sets, storage-call trace); "
